@@ -23,7 +23,7 @@ RULE = "instances = router classes and their return sites, call-graph reachabili
 
 def check(ctx):
     P = ctx.program
-    iters = (0, 1, 2) if ctx.tier == "thorough" else (0, 1)
+    iters = (0, 1)
     lookup(ctx, P)
     routers(ctx, P)
     deterministic(ctx, P)
@@ -217,6 +217,7 @@ def jsq(ctx, P):
         app = [x for x in ast.walk(t) if isinstance(x, ast.Call) and call_name(x) == "append"]
         if len(app) != 1 or unparse(app[0].args[0]) != var or not lists or unparse(app[0].func.value) != lists[0]:
             ctx.violation(ob, "R6.argmin", "JoinShortestQueue.next_node", "tie arm", "selection-not-from-iteration", "a tie must append that destination", loc(t))
+    flexible_update(ctx, P, ob)
     # FlexibleProcessBased builds its temporary routers over the given subset
     fp = P.classes["FlexibleProcessBased"].methods["find_next_node_from_subset"]
     s = unparse(fp).replace(" ", "")
@@ -362,3 +363,38 @@ def class_change(ctx, P, iters):
             ctx.violation(ob, "R2.priority-remap", "%s.have_event" % cls.name, "IndividualType(id, next_class, priority_class_mapping[next_class])", "priority-not-remapped",
                           "a new customer's priority must be the mapping of its class", loc(fn))
     ctx.floor("class writes", n, 3)
+
+
+def flexible_update(ctx, P, ob):
+    """FlexibleProcessBased.update_individual_route: 'any' -> drop the whole stage; 'all' -> remove ONE occurrence of the chosen node, drop the stage when it is empty"""
+    view = P.view("FlexibleProcessBased")
+    cls, fn = view.method("update_individual_route")
+    ind, nid = fn.args.args[1].arg, fn.args.args[2].arg
+    for rule in ("any", "all"):
+        w = Walker(P, view, keep=lambda e: e.kind == "guard" or (e.kind == "call" and e.d["meth"] in ("remove", "pop")) or (e.kind == "assign" and not e.d.get("local")), track=lambda t, f: True, inline=lambda ev: False)
+        okk, npaths = True, 0
+        for st in w.paths_of(cls, fn, facts={("eq", "'any'", "self.rule"): rule == "any", ("eq", "'all'", "self.rule"): rule == "all"}):
+            if st.status == "raise":
+                continue
+            npaths += 1
+            evs = [e for e in st.events if e.kind != "guard"]
+            facts = rules.path_condition(st.events)
+            drop = [e for e in evs if e.kind == "assign" and e.d["target"] == ind + ".route"]
+            rem = [e for e in evs if e.kind == "call"]
+            if any(e.kind == "assign" and e.d["target"].startswith(ind + ".route[") for e in evs):
+                okk = False
+            if rule == "any":
+                okk = okk and not rem and len(drop) == 1 and drop[0].d["value"].replace(" ", "") == ind + ".route[1:]"
+            else:
+                okk = okk and len(rem) == 1 and rem[0].d["meth"] == "remove" and rem[0].d["recv"] == ind + ".route[0]" and rem[0].d["args"] == [nid]
+                empty = facts.get(("eq", "0", "len(%s.route[0])" % ind))
+                if empty is True:
+                    okk = okk and len(drop) == 1 and drop[0].d["value"].replace(" ", "") == ind + ".route[1:]"
+                elif empty is False:
+                    okk = okk and not drop
+                else:
+                    okk = False
+        ob.ok("FlexibleProcessBased.update_individual_route:%s" % rule)
+        if not okk or npaths < 1:
+            ctx.violation(ob, "R12.router-return", "FlexibleProcessBased.update_individual_route", "rule %r" % rule, "route-update",
+                          "rule 'any' drops the stage; rule 'all' removes exactly one occurrence of the visited node from the stage (list.remove) and drops the stage only when it is empty", loc(fn))
